@@ -102,6 +102,9 @@ class Prop:
             elif x < 0.10:
                 ops.append({"k": "del_attr", "o": r.randrange(npool + 1),
                             "name": r.choice(["child", "children", "children", "table", "group"])})
+            elif x < 0.125:
+                # an instance trait that carries the metadata '+tag' filters on
+                ops.append({"k": "add_tagged", "o": r.randrange(npool + 1)})
             elif allow_opt and x < 0.20:
                 ops.append(r.choice([{"k": "add_trait", "o": r.randrange(npool)},
                                      {"k": "add_trait", "o": r.randrange(npool),
@@ -128,7 +131,7 @@ class Prop:
                     # node whose matched status the in-flight op does not change
                     ops[-1]["env"] = [{"at": "h:any", "nth": er.choice([1, 1, 2]),
                                        "do": "nested_probe", "o": er.randrange(npool + 2),
-                                       "name": er.choice(["value", "label"])}]
+                                       "name": er.choice(["value", "label", "tagged"])}]
         return {"prop": ID, "seed": seed,
                 "config": {"npool": npool, "handlers": handlers, "pre": pre,
                            # value objects: links re-assigned an equal but distinct node
@@ -197,7 +200,7 @@ class Prop:
                     # probe phase: a fresh unique value on every pool object
                     pre = {h.id: G.match(h.expr, world.model(h.root_uid))[0] for h in handlers}
                     for j in range(len(world.mnodes)):
-                        for name in ("value", "label"):
+                        for name in ("value", "label", "tagged"):
                             self.step(world, handlers, {"k": "probe", "o": j, "name": name}, i,
                                       env, sched, records, pending_expect, stats, allow_k1,
                                       probe=True, pre=pre)
@@ -544,7 +547,7 @@ def check_calls(hid, exp, ch, recs, step, desc, probe):
                     raise AssertionError("event type %s" % tname)
                 if ev.object is not ch.obj or ev.name != ch.name:
                     raise AssertionError("event names %r.%s" % (ev.object, ev.name))
-                if ch.name in ("value", "label"):
+                if ch.name in ("value", "label", "tagged"):
                     if ev.new != ch.new or ev.old != ch.old:
                         raise AssertionError("old/new %r -> %r, assigned %r -> %r"
                                              % (ev.old, ev.new, ch.old, ch.new))
